@@ -51,6 +51,11 @@ def run(ck, rng, tier):
             Y = Y + rng.choice((3e5, 3e6)) * Y.std(axis=0)
             ck.count("responses far from the origin")
         Xnew = np.array([[rng.gauss(0, 1) for _ in range(m)] for _ in range(3)])
+        if c == 3 or (thorough and c % 20 == 9):
+            # predictors in large units, responses in small ones (slopes of order 1e-12): every coefficient counts
+            ux, uy = rng.choice((1e6, 1e5)), rng.choice((1e-6, 1e-7))
+            X, Y, Xnew = X * ux, Y * uy, Xnew * ux
+            ck.count("predictors in units of %g, responses in units of %g" % (ux, uy))
         kind = rng.choice(("plain", "yaffine", "xmix"))
         lines.append("mlr %s %s %s" % (vf.fmt_mat(X.tolist(), m), vf.fmt_mat(Y.tolist(), ny), vf.fmt_mat(Xnew.tolist(), m)))
         meta.append(("base", X, Y, Xnew, cond, noise, kind))
@@ -66,6 +71,25 @@ def run(ck, rng, tier):
         ck.count("cond %g" % cond)
         ck.count("noise %g" % noise)
     outs = vf.run_driver_cases(ck, exe, lines, lambda k: ("MLR", {"case": str(meta[k])[:1500]}))
+    vf.reuse_scan(ck, "drv_alg:mlr", outs, lambda k: {"case": str(meta[k])[:1500]})
+    # the least-squares kernel itself, called the way a user calls it repeatedly: into a coefficient vector that
+    # already holds the coefficients of a previous call / other numbers
+    ols_lines, ols_meta = [], []
+    for c in range(6 if not thorough else 40):
+        q, p = rng.randint(4, 15), rng.randint(1, 4)
+        Z = np.hstack([np.ones((q, 1)), np.array([[rng.gauss(0, 1) for _ in range(p)] for _ in range(q)])])
+        yv = np.array([rng.gauss(0, 2) for _ in range(q)])
+        ols_lines.append("ols %s %s" % (vf.fmt_mat(Z.tolist(), p + 1), vf.fmt_vec(yv.tolist()))); ols_meta.append((Z, yv))
+    rc_o, outs_o, err_o = vf.run_driver(exe, "\n".join(ols_lines) + "\n")
+    if rc_o != 0 or len(outs_o) != len(ols_meta):
+        ck.broken("driver drv_alg (ols)", "rc=%s cases=%d/%d %s" % (rc_o, len(outs_o), len(ols_meta), err_o[-500:]))
+    else:
+        vf.reuse_scan(ck, "drv_alg:ols", outs_o, lambda k: {"Z": ols_meta[k][0].tolist(), "y": ols_meta[k][1].tolist()})
+        for (Z, yv), o_ in zip(ols_meta, outs_o):
+            ck.case(("ols", Z.shape, repr(Z[0].tolist())))
+            ref_, *_ = np.linalg.lstsq(Z, yv, rcond=None)
+            if np.abs(np.array(o_["coef"]) - ref_).max() > 1e-8 * np.linalg.cond(Z) ** 2 * max(1.0, np.abs(ref_).max()):
+                ck.fail("OrdinaryLeastSquares", "not_least_squares", "coefficients differ from the least-squares solution", {"Z": Z.tolist(), "y": yv.tolist()})
     checks = vf.Checks()
     cm, cv = vf.coq_mat, vf.coq_vec
     base = None
